@@ -23,6 +23,11 @@ def run(ctx):
     machine_prop.run(ctx, [('timers', 60, 1500, {'float_times': True})], MONITORS, model=False)
     sd_backend(ctx, ctx.n(80, 1500))
     nested_runs(ctx, ctx.n(20, 300))
+    past_till(ctx, ctx.n(30, 500))
+    # timed waits through the SimPy layer (Timeout, processes registered before the run, initial_time): C18's directed
+    # family, its oracle is the clock arithmetic of this property
+    from harness.props import C18
+    C18.initial_time_family(ctx, ctx.n(20, 300))
 
 
 def sd_backend(ctx, n):
@@ -92,6 +97,29 @@ def nested_runs(ctx, n):
         for x in obs:
             if x[0] == 'inner' and (x[1] != start_in or x[3] != start_in + x[2]):
                 ctx.fail(case, 'inner wait %r did not end at start + d' % (x,), family='nested-runs')
+
+
+def past_till(ctx, n):
+    """`run(till=T)` with T before the start is `time == past`: it can never hold, so the run must be exactly the run
+    without a till date"""
+    from harness import gen, dsl
+    for _ in range(n):
+        sc = gen.generate(ctx.rng, 'timers', till_p=0.0, start=ctx.rng.choice([0, 5, 10]))
+        a, ia = dsl.run_scenario(sc)
+        sc2 = dict(sc, till=sc['start'] - ctx.rng.choice([1, 2, 5]))
+        b, ib = dsl.run_scenario(sc2)
+        ctx.count(sc2, nontrivial=len(a) > 4)
+        ctx.bump('family:past-till')
+        # (with a till date the roots run as children of a root scope: the order within one time step and the wrapping of
+        # a failure may differ, so only runs that end normally are compared, as sets of (time, log) events)
+        if ia['final'][0] != 90:
+            continue
+        la = sorted((e[0], e[2]) for e in a if len(e) == 3 and e[1] == 1)
+        lb = sorted((e[0], e[2]) for e in b if len(e) == 3 and e[1] == 1)
+        if la != lb or ib['final'][0] != 90:
+            ctx.fail(sc2, 'run(start=%r, till=%r): the till date is in the past and can never hold, yet the run differs from '
+                          'the run without till: logged %r (end %r) vs %r' % (sc['start'], sc2['till'], lb[:12], ib['final'], la[:12]),
+                     family='past-till')
 
 
 def time_untils(ctx, n):
